@@ -231,6 +231,13 @@ pub fn main(a: &Args) {
                         }
                     }
                     let mut props = vec![(m.legacy.clone(), lv.clone())];
+                    if n % 3 == 0 {
+                        // neighbours that reflection cannot resolve (unknown to the database) or that never serialize: the
+                        // writers walk the property map past them on their way to the explicit value
+                        for k in 0..3 {
+                            props.push((format!("{}Zz{}", ["", "aa", "zz"][k], n % 7), Variant::Int32(k as i32)));
+                        }
+                    }
                     if let Some(e) = &explicit {
                         if r.chance(1, 2) {
                             props.insert(0, (m.new_name.clone(), e.clone()));
